@@ -5,6 +5,12 @@
 //!   rtpredict  [np seq…] [n (pep label q:f32 aligned_rt:f32)…]
 //!       -> 1 [n (r:f64 predicted_rt:f32 delta_rt_model:f32)…]   (model fitted; r = predict_peptide)
 //!        | 0 [n (predicted_rt:f32 delta_rt_model:f32)…]           (fit failed: fields untouched)
+//!   predpools kind(0 = rt, 1 = ims) [np seq…] [n (pep label q:f32 charge obs:f32)…]
+//!       -> 4 then, for rayon pools of 1, 2, 4, 16 threads (ThreadPoolBuilder::install):
+//!          fit(0/1) r2:f64 [n (r:f64 predicted:f32 delta:f32)…]     (r2, r = 0 when the fit failed)
+//!   chainpools [np seq…] n_files [n (file pep label q:f32 rt:f32)…]      (observational)
+//!       -> 4 then per pool: global_alignment + retention_model::predict:
+//!          [n_files (max_rt slope intercept)…] [n (aligned_rt predicted_rt delta_rt_model)…]
 //!   imspredict [np seq…] [n (pep label q:f32 charge ims:f32)…]
 //!       -> 1 [n (r:f64 predicted_ims:f32 delta_ims_model:f32)…] | 0 [n (predicted_ims delta_ims_model)…]
 use super::Info;
@@ -17,7 +23,7 @@ use sage_core::ml::retention_model::{self, RetentionModel};
 use sage_core::peptide::Peptide;
 use sage_core::scoring::Feature;
 
-pub const OPS: &[&str] = &["align", "rtpredict", "imspredict"];
+pub const OPS: &[&str] = &["align", "rtpredict", "imspredict", "predpools", "chainpools"];
 pub const INFO: Info = Info {
     rule: "align: multi-file PSM sets, 1..8 files, up to 40 peptides (quick) / 100 (thorough); each file is an \
            affine distortion a*t+b of a common profile t (exactly representable distortions of a dyadic profile, \
@@ -28,7 +34,10 @@ pub const INFO: Info = Info {
            RTs, file_id >= n_files (panic), plus an exhaustive small scope (all PSM sets of <= 2 (quick) / 3 (thorough) PSMs over 1-2 files x 2 peptides x {confident, not} x rt in {0, 0.5, 2, 3.5}), plus 200 / 3000 sets in which every file is an exact affine image (incl. reversed gradients) of one profile over the same peptides. non-trivial = some file has \
            at least 2 confident target PSMs of distinct peptides. rtpredict/imspredict: 4..80 random tryptic-like \
            peptides, observed values a noisy linear function of composition (or constant / far outside the clamp \
-           range), 0..all PSMs confident; non-trivial = the model was fitted",
+           range), 0..all PSMs confident; non-trivial = the model was fitted. predpools: the same kind of \
+           database with 200..3000 PSMs (large enough for rayon to split the par_iter pipelines), RT and IM, run \
+           under pools of 1/2/4/16 threads; chainpools: alignment + RT prediction of a multi-file set under the \
+           same pools (observational)",
     serial: false,
 };
 
@@ -525,17 +534,200 @@ fn exec_predict(op: &str, t: &mut Toks) -> Option<String> {
     Some(o.finish())
 }
 
+
+// ---------------------------------------------------------------------------------------------
+// predpools / chainpools: the same computation under rayon pools of different sizes
+
+const POOLS: [usize; 4] = [1, 2, 4, 16];
+
+fn in_pool<T: Send>(threads: usize, f: impl FnOnce() -> T + Send) -> T {
+    rayon::ThreadPoolBuilder::new().num_threads(threads).build().expect("pool").install(f)
+}
+
+fn build_db(seqs: &[String]) -> Option<IndexedDatabase> {
+    let mut peptides = Vec::new();
+    for s in seqs {
+        let p = Peptide::try_from(Digest { decoy: false, sequence: s.clone(), missed_cleavages: 0, ..Default::default() })
+            .ok()?;
+        peptides.push(p);
+    }
+    Some(IndexedDatabase { peptides, ..Default::default() })
+}
+
+fn gen_pools(rng: &mut Rng, tier: Tier, emit: &mut dyn FnMut(Case)) {
+    let n_cases = if tier == Tier::Quick { 24 } else { 240 };
+    for i in 0..n_cases {
+        let ims = i % 3 == 2;
+        let n_peps = 20 + rng.below(180);
+        let seqs: Vec<String> = (0..n_peps).map(|_| random_peptide(rng)).collect();
+        let w: Vec<f64> = (0..26).map(|_| rng.unit() - 0.35).collect();
+        let scale = *rng.pick(&[0.02f64, 0.05, 0.2]);
+        let n = 200 + rng.below(if tier == Tier::Quick { 1300 } else { 2800 });
+        let mut o = Out::new();
+        o.raw("predpools").b(ims).n(seqs.len());
+        for s in &seqs {
+            o.s(s);
+        }
+        o.n(n);
+        for _ in 0..n {
+            let pep = rng.below(n_peps);
+            let charge = 1 + rng.below(4);
+            let lin: f64 = seqs[pep].bytes().map(|c| w[(c - b'A') as usize]).sum::<f64>() * scale;
+            let obs = (lin + 0.05 * (rng.unit() - 0.5)) as f32;
+            let label = if rng.chance(1, 10) { -1 } else { 1 };
+            let q = if rng.chance(3, 4) { Q_CONF } else { 0.2 };
+            o.n(pep).n(label).f32(q).n(charge).f32(obs);
+        }
+        emit(Case::new(o.finish()).tag("pool-sizes-1-2-4-16").tag(if ims { "pools-ims" } else { "pools-rt" }));
+    }
+    // alignment + prediction chain (observational): 2-6 files over one database
+    let n_chain = if tier == Tier::Quick { 8 } else { 80 };
+    for _ in 0..n_chain {
+        let n_peps = 30 + rng.below(120);
+        let seqs: Vec<String> = (0..n_peps).map(|_| random_peptide(rng)).collect();
+        let profile: Vec<f64> = (0..n_peps).map(|_| 1.0 + rng.unit() * 119.0).collect();
+        let n_files = 2 + rng.below(5);
+        let mut fs = Vec::new();
+        for file in 0..n_files {
+            let (a, b) = (0.5 + rng.unit() * 1.5, rng.unit() * 30.0);
+            for (pep, &t) in profile.iter().enumerate() {
+                if rng.chance(1, 5) {
+                    continue;
+                }
+                let label = if rng.chance(1, 10) { -1 } else { 1 };
+                let q = if rng.chance(5, 6) { Q_CONF } else { 0.2 };
+                fs.push(F { file, pep, label, q, rt: (a * t + b + 0.5 * (rng.unit() - 0.5)) as f32 });
+            }
+        }
+        rng.shuffle(&mut fs);
+        let mut o = Out::new();
+        o.raw("chainpools").n(seqs.len());
+        for s in &seqs {
+            o.s(s);
+        }
+        o.n(n_files).n(fs.len());
+        for f in &fs {
+            o.n(f.file).n(f.pep).n(f.label).f32(f.q).f32(f.rt);
+        }
+        emit(Case::new(o.finish()).tag("pool-sizes-1-2-4-16").tag("pools-chain"));
+    }
+}
+
+fn exec_predpools(t: &mut Toks) -> Option<String> {
+    let ims = t.bool()?;
+    let seqs = t.list(|t| t.string())?;
+    let fs = t.list(|t| {
+        Some(PF { pep: t.usize()?, label: t.i64()? as i32, q: t.f32()?, charge: t.usize()? as u8, obs: t.f32()? })
+    })?;
+    if !t.done() {
+        return None;
+    }
+    let db = build_db(&seqs)?;
+    let mut o = Out::new();
+    o.n(POOLS.len());
+    for &threads in &POOLS {
+        let mut feats: Vec<Feature> = fs
+            .iter()
+            .map(|f| {
+                let mut x = super::util::blank_feature();
+                x.peptide_idx = PeptideIx(f.pep as u32);
+                x.label = f.label;
+                x.spectrum_q = f.q;
+                x.charge = f.charge;
+                if ims {
+                    x.ims = f.obs;
+                } else {
+                    x.aligned_rt = f.obs;
+                }
+                x
+            })
+            .collect();
+        // everything (fit for r / r2, and the real `predict`) inside the pool
+        let (fitted, r2, raw): (bool, f64, Vec<f64>) = in_pool(threads, || {
+            let (r2, raw) = if ims {
+                match MobilityModel::fit(&db, &feats) {
+                    Some(lr) => (lr.r2, feats.iter().map(|f| lr.predict_peptide(&db, f)).collect()),
+                    None => (0.0, vec![0.0; feats.len()]),
+                }
+            } else {
+                match RetentionModel::fit(&db, &feats) {
+                    Some(lr) => (lr.r2, feats.iter().map(|f| lr.predict_peptide(&db, f)).collect()),
+                    None => (0.0, vec![0.0; feats.len()]),
+                }
+            };
+            let fitted =
+                if ims { mobility_model::predict(&db, &mut feats) } else { retention_model::predict(&db, &mut feats) };
+            (fitted.is_some(), r2, raw)
+        });
+        o.b(fitted).f64(r2).n(feats.len());
+        for (i, f) in feats.iter().enumerate() {
+            o.f64(raw[i]);
+            if ims {
+                o.f32(f.predicted_ims).f32(f.delta_ims_model);
+            } else {
+                o.f32(f.predicted_rt).f32(f.delta_rt_model);
+            }
+        }
+    }
+    Some(o.finish())
+}
+
+fn exec_chainpools(t: &mut Toks) -> Option<String> {
+    let seqs = t.list(|t| t.string())?;
+    let n_files = t.usize()?;
+    let fs = t.list(|t| {
+        Some(F { file: t.usize()?, pep: t.usize()?, label: t.i64()? as i32, q: t.f32()?, rt: t.f32()? })
+    })?;
+    if !t.done() {
+        return None;
+    }
+    let db = build_db(&seqs)?;
+    let mut o = Out::new();
+    o.n(POOLS.len());
+    for &threads in &POOLS {
+        let mut feats: Vec<Feature> = fs
+            .iter()
+            .map(|f| {
+                let mut x = super::util::blank_feature();
+                x.file_id = f.file;
+                x.peptide_idx = PeptideIx(f.pep as u32);
+                x.label = f.label;
+                x.spectrum_q = f.q;
+                x.rt = f.rt;
+                x
+            })
+            .collect();
+        let al = in_pool(threads, || {
+            let al = global_alignment(&mut feats, n_files);
+            let _ = retention_model::predict(&db, &mut feats);
+            al
+        });
+        o.n(al.len());
+        for a in &al {
+            o.f32(a.max_rt).f32(a.slope).f32(a.intercept);
+        }
+        o.n(feats.len());
+        for f in &feats {
+            o.f32(f.aligned_rt).f32(f.predicted_rt).f32(f.delta_rt_model);
+        }
+    }
+    Some(o.finish())
+}
+
 // ---------------------------------------------------------------------------------------------
 
 pub fn gen(rng: &mut Rng, tier: Tier, emit: &mut dyn FnMut(Case)) {
     gen_align(rng, tier, emit);
     gen_predict(rng, tier, emit);
+    gen_pools(rng, tier, emit);
 }
 
 pub fn exec(op: &str, t: &mut Toks) -> Option<String> {
     match op {
         "align" => exec_align(t),
         "rtpredict" | "imspredict" => exec_predict(op, t),
+        "predpools" => exec_predpools(t),
+        "chainpools" => exec_chainpools(t),
         _ => None,
     }
 }
